@@ -76,6 +76,9 @@ impl Timer {
     open spec fn may_call(&self, readiness: Readiness, token: Token, e: Instant) -> bool {
         self.reg_token() == Some(token) && self.dl() == Some(e)
     }
+    open spec fn cb_req<CbF: FnMut(Instant, &mut ()) -> TimeoutAction>(&self, readiness: Readiness, token: Token, callback: CbF) -> bool {
+        forall|e: Instant, m: &mut ()| self.may_call(readiness, token, e) ==> #[trigger] call_requires(callback, (e, m))
+    }
     open spec fn process_ens(o: &Self, n: &Self, readiness: Readiness, token: Token, r: Result<PostAction, std::io::Error>) -> bool {
         &&& r is Ok
         &&& (r->Ok_0 is Continue || r->Ok_0 is Remove)
@@ -87,6 +90,9 @@ impl Timer {
     }
 //@ endregion
 //@ item src/sources/timer.rs / impl EventSource for Timer / fn process_events props=C05,C01,C07 ret=r
+//@ rw R8 1 <<process_events<F>>> => <<process_events<CbF>>>
+//@ rw R8 1 <<mut callback: F,>> => <<mut callback: CbF,>>
+//@ rw R8 1 <<F: FnMut(Self::Event>> => <<CbF: FnMut(Self::Event>>
 //@ rw R2 1 <<_: Readiness>> => <<_readiness: Readiness>>
 //@ spec
         ensures
